@@ -183,7 +183,7 @@ func EvalRecords(module string, env map[string]string, recs []Rec) ([]Mismatch, 
 				}
 			}
 			if n != j.hi-j.lo || len(r.Errors) > 0 || r.ExitCode != 0 {
-				out[ji].err = fmt.Errorf("trace evaluation by TLC failed (module %s, exit %d, evaluated %d of %d):\n%s", module, r.ExitCode, n, j.hi-j.lo, r.Tail(30))
+				out[ji].err = fmt.Errorf("trace evaluation by TLC failed (module %s, exit %d, evaluated %d of %d):\n%s", module, r.ExitCode, n, j.hi-j.lo, r.ErrorText(25))
 			}
 		}(ji, j)
 	}
